@@ -53,7 +53,7 @@ def gen_plan(rng, tier, index):
 
 def directed_plans(tier):
     base = {'t': 0, 'u': 0, 'a': [0, 2, 3, 4, 5, 6], 'flag': False, 'flag2': False}
-    plans = [{'mode': 'bytes_labels', 'family': {'roots': []}, 'ops': []}]
+    plans = [{'mode': 'bytes_labels', 'family': {'roots': []}, 'ops': []}, {'mode': 'mixed_labels', 'family': {'roots': []}, 'ops': []}]
     ch = {'roi': {'values': [1], 'container': 'list'}, 'name': {'values': ['ch3'], 'container': 'list'}}
     # all shapes incl. single observation / channel / time point for the temporal conversions
     for n_obs in (1, 2):
@@ -133,10 +133,57 @@ def _bytes_labels(plan, ctx):
     ctx.behaviour('bytes_labels')
 
 
+def _mixed_labels(plan, ctx):
+    """a hand-kept descriptor list of mixed label types (run numbers and names), carried along by selections, splits and
+    sorting: every retained row keeps its own value, type included (1 stays 1, not '1')"""
+    import numpy as np
+    from rsatoolbox.data import Dataset, TemporalDataset
+    mixed = [1, 2, 'loc', 3, 'rest', 2]
+    cond = [2, 0, 1, 2, 0, 1]
+    ctx.tick('op', op='mixed_labels')
+    for temporal in (False, True):
+        m = np.arange(6 * 2 * (3 if temporal else 1), dtype=float).reshape((6, 2, 3) if temporal else (6, 2)) + 0.5
+        od = {'cond': list(cond), 'run': list(mixed), 'row': list(range(6))}
+        ds = (TemporalDataset(m, obs_descriptors=od, channel_descriptors={'ch': ['a', 'b']}, time_descriptors={'time': [0.0, 1.0, 2.0]})
+              if temporal else Dataset(m, obs_descriptors=od, channel_descriptors={'ch': ['a', 'b']}))
+        what = 'TemporalDataset' if temporal else 'Dataset'
+        steps = [('subset_obs(cond, [0, 2])', lambda d: [d.subset_obs('cond', [0, 2])]),
+                 ('split_obs(cond)', lambda d: d.split_obs('cond')),
+                 ('subset_channel(ch, a)', lambda d: [d.subset_channel('ch', 'a')])]
+        if not temporal:
+            steps.append(('copy + sort_by(cond)', lambda d: [_sorted(d)]))
+        for name, fn in steps:
+            try:
+                parts = fn(ds)
+            except Exception as e:
+                ctx.violation('dataset_twin.raises', f'mixed-labels:raises:{type(e).__name__}', f'{name} on a {what} with a mixed-type descriptor list raised {type(e).__name__}: {e}')
+                return
+            for part in parts:
+                rows = [int(x) for x in part.obs_descriptors['row']]
+                got = list(part.obs_descriptors['run'])
+                exp = [mixed[r] for r in rows]
+                if len(got) != len(exp) or any(type(a) is not type(b) and not (isinstance(a, (int, np.integer)) and isinstance(b, int)) or a != b
+                                               for a, b in zip(got, exp)):
+                    ctx.violation('dataset_twin.descriptors', 'mixed-labels:descriptors',
+                                  f'{name} on a {what}: rows {rows} carry run labels {got!r}; they had {exp!r}')
+                    return
+            ctx.probe('mixed_label_cells')
+    ctx.nontrivial = True
+    ctx.behaviour('mixed_labels')
+
+
+def _sorted(d):
+    c = d.copy()
+    c.sort_by('cond')
+    return c
+
+
 def execute(plan, ctx, prop=PROPERTY):
     import rsatoolbox  # noqa
     if plan.get('mode') == 'bytes_labels':
         return _bytes_labels(plan, ctx)
+    if plan.get('mode') == 'mixed_labels':
+        return _mixed_labels(plan, ctx)
     ctx.components.update(['real:rsatoolbox.data.dataset', 'real:rsatoolbox.data.ops', 'real:rsatoolbox.data.computations',
                            'real:rsatoolbox.util.descriptor_utils', 'real:pandas (DataFrame round trip)'])
     pool = Pool(ctx, prop)
